@@ -1,17 +1,1690 @@
-//! Engine `index` — placeholder (not written yet).
+//! Engine `index` (C14): generated dumps (minidump-synth + raw sections) through the real
+//! `minidump_processor::process_minidump`, compared with the Lean model `MdModel.Index` applied to
+//! the generator's abstract description — the case line IS the abstract description; this engine
+//! builds the dump bytes from it. The property's own oracle is evaluated on the implementation's
+//! `ProcessState` alone.
+//!
+//! case line (fields in this order, numbers decimal):
+//!   `index ts=<u32> os=<platform id> cpu=<arch> th=<T> nm=<N> bp=<B> ex=<E> mi=<M> st=<S> mo=<L> um=<L>`
+//!   T = `-` (no thread list stream) | `.` (empty list) | `id:ctx,..`  ctx = `r<ip>` | `u<mode 0..4>`
+//!   N = `-` | `.` | `id:name,..`   name `!` = unreadable string
+//!   B = `-` | `validity:dump_thread_id:requesting_thread_id`
+//!   E = `-` | `x` (stream too short) | `tid:code:flags:addr:nparams:p0:p1:p2:ctx`
+//!   M = `-` | `x` (stream too short) | `flags1:pid:create_time:version(1..5)`
+//!   S = `-` | `.` (empty stream) | `Key~value,..`
+//!   L = `.` | `base:size:name,..`
+//!
+//! unreadable-context modes: 0 location (0,0) · 1 rva outside the file · 2 truncated by one byte ·
+//! 3 context_flags without the CPU bits · 4 size 0 at a valid rva
+
 use crate::common::*;
+use minidump::system_info::{Cpu, Os, PointerWidth};
+use minidump::*;
+use minidump_common::format as md;
+use minidump_synth as synth;
+use scroll::ctx::SizeWith;
+use scroll::{Pread, Pwrite};
+use std::collections::BTreeMap;
+use std::fmt::Write as _;
+use synth::{DumpSection, SectionExtra};
+use test_assembler::{Endian, Section};
 
 pub struct Index;
+
+const LE: Endian = Endian::Little;
+
+// ------------------------------------------------------------------------------------ case
+
+#[derive(Clone, Copy, Debug, PartialEq)]
+enum Ctx {
+    R(u64),
+    U(u8),
+}
+
+#[derive(Clone, Debug, PartialEq)]
+struct Exc {
+    tid: u32,
+    code: u32,
+    flags: u32,
+    addr: u64,
+    np: u32,
+    p0: u64,
+    p1: u64,
+    p2: u64,
+    ctx: Ctx,
+}
+
+#[derive(Clone, Debug, PartialEq)]
+enum ExcSpec {
+    None,
+    Short,
+    Some(Exc),
+}
+
+#[derive(Clone, Debug, PartialEq)]
+enum MiscSpec {
+    None,
+    Short,
+    Some { flags: u32, pid: u32, ctime: u32, ver: u8 },
+}
+
+#[derive(Clone, Debug, PartialEq)]
+struct Mod {
+    base: u64,
+    size: u32,
+    name: String,
+}
+
+#[derive(Clone, Debug, PartialEq)]
+struct Case {
+    ts: u32,
+    os: u32,
+    cpu: u16,
+    th: Option<Vec<(u32, Ctx)>>,
+    nm: Option<Vec<(u32, Option<String>)>>,
+    bp: Option<(u32, u32, u32)>,
+    ex: ExcSpec,
+    mi: MiscSpec,
+    st: Option<Vec<(String, String)>>,
+    mo: Vec<Mod>,
+    um: Vec<Mod>,
+}
+
+fn fmt_ctx(c: &Ctx) -> String {
+    match c {
+        Ctx::R(ip) => format!("r{ip}"),
+        Ctx::U(m) => format!("u{m}"),
+    }
+}
+
+fn fmt_list<T>(xs: &[T], f: impl Fn(&T) -> String) -> String {
+    if xs.is_empty() {
+        ".".to_string()
+    } else {
+        xs.iter().map(f).collect::<Vec<_>>().join(",")
+    }
+}
+
+impl Case {
+    fn line(&self) -> String {
+        let th = match &self.th {
+            None => "-".to_string(),
+            Some(v) => fmt_list(v, |(id, c)| format!("{id}:{}", fmt_ctx(c))),
+        };
+        let nm = match &self.nm {
+            None => "-".to_string(),
+            Some(v) => fmt_list(v, |(id, n)| format!("{id}:{}", n.as_deref().unwrap_or("!"))),
+        };
+        let bp = match &self.bp {
+            None => "-".to_string(),
+            Some((v, d, r)) => format!("{v}:{d}:{r}"),
+        };
+        let ex = match &self.ex {
+            ExcSpec::None => "-".to_string(),
+            ExcSpec::Short => "x".to_string(),
+            ExcSpec::Some(e) => format!(
+                "{}:{}:{}:{}:{}:{}:{}:{}:{}",
+                e.tid, e.code, e.flags, e.addr, e.np, e.p0, e.p1, e.p2, fmt_ctx(&e.ctx)
+            ),
+        };
+        let mi = match &self.mi {
+            MiscSpec::None => "-".to_string(),
+            MiscSpec::Short => "x".to_string(),
+            MiscSpec::Some { flags, pid, ctime, ver } => format!("{flags}:{pid}:{ctime}:{ver}"),
+        };
+        let st = match &self.st {
+            None => "-".to_string(),
+            Some(v) => fmt_list(v, |(k, val)| format!("{k}~{val}")),
+        };
+        let ml = |v: &Vec<Mod>| fmt_list(v, |m| format!("{}:{}:{}", m.base, m.size, m.name));
+        format!(
+            "index ts={} os={} cpu={} th={} nm={} bp={} ex={} mi={} st={} mo={} um={}",
+            self.ts, self.os, self.cpu, th, nm, bp, ex, mi, st, ml(&self.mo), ml(&self.um)
+        )
+    }
+}
+
+fn kv<'a>(tok: &'a str, key: &str) -> Option<&'a str> {
+    tok.strip_prefix(key)?.strip_prefix('=')
+}
+
+fn parse_ctx(s: &str) -> Option<Ctx> {
+    if let Some(r) = s.strip_prefix('r') {
+        Some(Ctx::R(r.parse().ok()?))
+    } else if let Some(u) = s.strip_prefix('u') {
+        Some(Ctx::U(u.parse().ok()?))
+    } else {
+        None
+    }
+}
+
+fn parse_list<T>(s: &str, f: impl Fn(&str) -> Option<T>) -> Option<Vec<T>> {
+    if s == "." {
+        Some(vec![])
+    } else {
+        s.split(',').map(f).collect()
+    }
+}
+
+fn name_ok(s: &str) -> bool {
+    !s.is_empty() && s.bytes().all(|b| b.is_ascii_alphanumeric() || b == b'_' || b == b'.')
+}
+
+fn parse_mod(s: &str) -> Option<Mod> {
+    let p: Vec<&str> = s.split(':').collect();
+    if p.len() != 3 || !name_ok(p[2]) {
+        return None;
+    }
+    Some(Mod { base: p[0].parse().ok()?, size: p[1].parse().ok()?, name: p[2].to_string() })
+}
+
+fn parse_case(line: &str) -> Option<Case> {
+    let f: Vec<&str> = line.split(' ').filter(|s| !s.is_empty()).collect();
+    if f.len() != 12 || f[0] != "index" {
+        return None;
+    }
+    let ts = kv(f[1], "ts")?.parse().ok()?;
+    let os = kv(f[2], "os")?.parse().ok()?;
+    let cpu = kv(f[3], "cpu")?.parse().ok()?;
+    let th = match kv(f[4], "th")? {
+        "-" => None,
+        s => Some(parse_list(s, |t| {
+            let (a, c) = t.split_once(':')?;
+            Some((a.parse().ok()?, parse_ctx(c)?))
+        })?),
+    };
+    let nm = match kv(f[5], "nm")? {
+        "-" => None,
+        s => Some(parse_list(s, |t| {
+            let (a, n) = t.split_once(':')?;
+            let id = a.parse().ok()?;
+            if n == "!" {
+                Some((id, None))
+            } else if name_ok(n) {
+                Some((id, Some(n.to_string())))
+            } else {
+                None
+            }
+        })?),
+    };
+    let bp = match kv(f[6], "bp")? {
+        "-" => None,
+        s => {
+            let p: Vec<&str> = s.split(':').collect();
+            if p.len() != 3 {
+                return None;
+            }
+            Some((p[0].parse().ok()?, p[1].parse().ok()?, p[2].parse().ok()?))
+        }
+    };
+    let ex = match kv(f[7], "ex")? {
+        "-" => ExcSpec::None,
+        "x" => ExcSpec::Short,
+        s => {
+            let p: Vec<&str> = s.split(':').collect();
+            if p.len() != 9 {
+                return None;
+            }
+            ExcSpec::Some(Exc {
+                tid: p[0].parse().ok()?,
+                code: p[1].parse().ok()?,
+                flags: p[2].parse().ok()?,
+                addr: p[3].parse().ok()?,
+                np: p[4].parse().ok()?,
+                p0: p[5].parse().ok()?,
+                p1: p[6].parse().ok()?,
+                p2: p[7].parse().ok()?,
+                ctx: parse_ctx(p[8])?,
+            })
+        }
+    };
+    let mi = match kv(f[8], "mi")? {
+        "-" => MiscSpec::None,
+        "x" => MiscSpec::Short,
+        s => {
+            let p: Vec<&str> = s.split(':').collect();
+            if p.len() != 4 {
+                return None;
+            }
+            let ver: u8 = p[3].parse().ok()?;
+            if !(1..=5).contains(&ver) {
+                return None;
+            }
+            MiscSpec::Some { flags: p[0].parse().ok()?, pid: p[1].parse().ok()?, ctime: p[2].parse().ok()?, ver }
+        }
+    };
+    let st = match kv(f[9], "st")? {
+        "-" => None,
+        s => Some(parse_list(s, |t| {
+            let (k, v) = t.split_once('~')?;
+            let ok = |x: &str| x.bytes().all(|b| b.is_ascii_alphanumeric() || b == b'+' || b == b'-' || b == b'_');
+            if k.is_empty() || !ok(k) || !ok(v) {
+                return None;
+            }
+            Some((k.to_string(), v.to_string()))
+        })?),
+    };
+    let mo = parse_list(kv(f[10], "mo")?, parse_mod)?;
+    let um = parse_list(kv(f[11], "um")?, parse_mod)?;
+    Some(Case { ts, os, cpu, th, nm, bp, ex, mi, st, mo, um })
+}
+
+// ----------------------------------------------------------------------------- dump building
+
+/// a well-formed context of the given raw architecture with the given ip (sp = 0);
+/// `None`: `MinidumpContext::read` has no format for this architecture.
+fn context_bytes(arch: u16, ip: u64, bad_flags: bool) -> Option<Vec<u8>> {
+    use md::ContextFlagsCpu as F;
+    use md::ProcessorArchitecture::*;
+    use num_traits_shim::from_u16;
+    macro_rules! build {
+        ($t:ty, |$c:ident| $body:block) => {{
+            let size = <$t>::size_with(&scroll::LE);
+            let mut buf = vec![0u8; size];
+            let mut $c: $t = buf.pread_with(0, scroll::LE).ok()?;
+            $body
+            buf.pwrite_with($c, 0, scroll::LE).ok()?;
+            Some(buf)
+        }};
+    }
+    match from_u16(arch)? {
+        PROCESSOR_ARCHITECTURE_INTEL | PROCESSOR_ARCHITECTURE_IA32_ON_WIN64 => build!(md::CONTEXT_X86, |c| {
+            c.context_flags = if bad_flags { 0x3f } else { F::CONTEXT_X86.bits() | 0x3f };
+            c.eip = ip as u32;
+        }),
+        PROCESSOR_ARCHITECTURE_AMD64 => build!(md::CONTEXT_AMD64, |c| {
+            c.context_flags = if bad_flags { 0x1f } else { F::CONTEXT_AMD64.bits() | 0x1f };
+            c.rip = ip;
+        }),
+        PROCESSOR_ARCHITECTURE_PPC => build!(md::CONTEXT_PPC, |c| {
+            c.context_flags = if bad_flags { 1 } else { F::CONTEXT_PPC.bits() | 1 };
+            c.srr0 = ip as u32;
+        }),
+        PROCESSOR_ARCHITECTURE_PPC64 => build!(md::CONTEXT_PPC64, |c| {
+            c.context_flags = if bad_flags { 1 } else { (F::CONTEXT_PPC64.bits() | 1) as u64 };
+            c.srr0 = ip;
+        }),
+        PROCESSOR_ARCHITECTURE_SPARC => build!(md::CONTEXT_SPARC, |c| {
+            c.context_flags = if bad_flags { 1 } else { F::CONTEXT_SPARC.bits() | 1 };
+            c.pc = ip;
+        }),
+        PROCESSOR_ARCHITECTURE_ARM => build!(md::CONTEXT_ARM, |c| {
+            c.context_flags = if bad_flags { 2 } else { F::CONTEXT_ARM.bits() | 2 };
+            c.iregs[15] = ip as u32;
+        }),
+        PROCESSOR_ARCHITECTURE_ARM64 => build!(md::CONTEXT_ARM64, |c| {
+            c.context_flags = if bad_flags { 0x1f } else { F::CONTEXT_ARM64.bits() | 0x1f };
+            c.pc = ip;
+        }),
+        PROCESSOR_ARCHITECTURE_ARM64_OLD => build!(md::CONTEXT_ARM64_OLD, |c| {
+            c.context_flags = if bad_flags { 2 } else { (F::CONTEXT_ARM64_OLD.bits() | 2) as u64 };
+            c.pc = ip;
+        }),
+        PROCESSOR_ARCHITECTURE_MIPS => build!(md::CONTEXT_MIPS, |c| {
+            c.context_flags = if bad_flags { 2 } else { F::CONTEXT_MIPS.bits() | 2 };
+            c.epc = ip;
+        }),
+        _ => None,
+    }
+}
+
+/// `ProcessorArchitecture::from_u16` without depending on num-traits directly
+mod num_traits_shim {
+    use minidump_common::format::ProcessorArchitecture::{self, *};
+    pub fn from_u16(a: u16) -> Option<ProcessorArchitecture> {
+        const ALL: &[ProcessorArchitecture] = &[
+            PROCESSOR_ARCHITECTURE_INTEL,
+            PROCESSOR_ARCHITECTURE_MIPS,
+            PROCESSOR_ARCHITECTURE_ALPHA,
+            PROCESSOR_ARCHITECTURE_PPC,
+            PROCESSOR_ARCHITECTURE_SHX,
+            PROCESSOR_ARCHITECTURE_ARM,
+            PROCESSOR_ARCHITECTURE_IA64,
+            PROCESSOR_ARCHITECTURE_ALPHA64,
+            PROCESSOR_ARCHITECTURE_MSIL,
+            PROCESSOR_ARCHITECTURE_AMD64,
+            PROCESSOR_ARCHITECTURE_IA32_ON_WIN64,
+            PROCESSOR_ARCHITECTURE_ARM64,
+            PROCESSOR_ARCHITECTURE_SPARC,
+            PROCESSOR_ARCHITECTURE_PPC64,
+            PROCESSOR_ARCHITECTURE_ARM64_OLD,
+            PROCESSOR_ARCHITECTURE_MIPS64,
+            PROCESSOR_ARCHITECTURE_UNKNOWN,
+        ];
+        ALL.iter().copied().find(|x| *x as u16 == a)
+    }
+}
+
+/// what a context location descriptor should say
+enum Loc {
+    Zero,
+    Outside(u32),
+    Section { sec: Section, cite_size: Option<u32> },
+}
+
+fn ctx_location(arch: u16, c: &Ctx) -> Loc {
+    // for architectures without a context format an x86-shaped blob is written: it must be ignored
+    let fallback = |ip: u64, bad: bool| context_bytes(0, ip, bad).unwrap();
+    let bytes = |ip: u64, bad: bool| context_bytes(arch, ip, bad).unwrap_or_else(|| fallback(ip, bad));
+    match c {
+        Ctx::R(ip) => Loc::Section { sec: Section::with_endian(LE).append_bytes(&bytes(*ip, false)), cite_size: None },
+        Ctx::U(0) => Loc::Zero,
+        Ctx::U(1) => Loc::Outside(bytes(0, false).len() as u32),
+        Ctx::U(2) => {
+            let b = bytes(0x4444, false);
+            let n = b.len() as u32 - 1;
+            Loc::Section { sec: Section::with_endian(LE).append_bytes(&b), cite_size: Some(n) }
+        }
+        Ctx::U(3) => Loc::Section { sec: Section::with_endian(LE).append_bytes(&bytes(0x5555, true)), cite_size: None },
+        Ctx::U(_) => Loc::Section { sec: Section::with_endian(LE).append_bytes(&bytes(0x6666, false)), cite_size: Some(0) },
+    }
+}
+
+/// append the location descriptor to `entry`, and the context bytes (if any) to the dump
+fn cite_ctx(mut dump: synth::SynthMinidump, entry: Section, loc: Loc) -> (synth::SynthMinidump, Section) {
+    match loc {
+        Loc::Zero => (dump, entry.D32(0).D32(0)),
+        Loc::Outside(size) => (dump, entry.D32(size).D32(0xffff_fff0u32)),
+        Loc::Section { sec, cite_size } => {
+            let entry = match cite_size {
+                None => entry.cite_location(&sec),
+                Some(n) => entry.D32(n).D32(sec.file_offset()),
+            };
+            dump = dump.add(sec);
+            (dump, entry)
+        }
+    }
+}
+
+fn build_dump(c: &Case) -> Vec<u8> {
+    let mut dump = synth::SynthMinidump::with_endian(LE);
+    dump = dump.add_system_info(
+        synth::SystemInfo::new(LE).set_processor_architecture(c.cpu).set_platform_id(c.os),
+    );
+    // thread list (raw entries: no stack memory, explicit context location)
+    if let Some(threads) = &c.th {
+        let mut list = synth::ListStream::<Section>::new(md::MINIDUMP_STREAM_TYPE::ThreadListStream, LE);
+        for (id, ctx) in threads {
+            let entry = Section::with_endian(LE)
+                .D32(*id)
+                .D32(0) // suspend_count
+                .D32(0) // priority_class
+                .D32(0) // priority
+                .D64(0) // teb
+                .D64(0) // stack.start_of_memory_range
+                .D32(0) // stack.memory.data_size
+                .D32(0); // stack.memory.rva
+            let (d, entry) = cite_ctx(dump, entry, ctx_location(c.cpu, ctx));
+            dump = d;
+            list = list.add(entry);
+        }
+        dump = dump.add_stream(list);
+    }
+    if let Some(names) = &c.nm {
+        let mut list = synth::ListStream::<Section>::new(md::MINIDUMP_STREAM_TYPE::ThreadNamesStream, LE);
+        for (id, name) in names {
+            let entry = Section::with_endian(LE).D32(*id);
+            let entry = match name {
+                Some(n) => {
+                    let s = synth::DumpString::new(n, LE);
+                    let e = entry.D64(s.file_offset());
+                    dump = dump.add(s);
+                    e
+                }
+                None => entry.D64(0xffff_ffff_ffff_ffffu64),
+            };
+            list = list.add(entry);
+        }
+        dump = dump.add_stream(list);
+    }
+    if let Some((v, d, r)) = c.bp {
+        dump = dump.add_stream(synth::SimpleStream {
+            stream_type: md::MINIDUMP_STREAM_TYPE::BreakpadInfoStream as u32,
+            section: Section::with_endian(LE).D32(v).D32(d).D32(r),
+        });
+    }
+    match &c.ex {
+        ExcSpec::None => {}
+        ExcSpec::Short => {
+            dump = dump.add_stream(synth::SimpleStream {
+                stream_type: md::MINIDUMP_STREAM_TYPE::ExceptionStream as u32,
+                section: Section::with_endian(LE).D32(1).D32(0).D32(0xc0000005u32),
+            });
+        }
+        ExcSpec::Some(e) => {
+            let mut s = Section::with_endian(LE)
+                .D32(e.tid)
+                .D32(0)
+                .D32(e.code)
+                .D32(e.flags)
+                .D64(0)
+                .D64(e.addr)
+                .D32(e.np)
+                .D32(0);
+            for i in 0..15u64 {
+                s = s.D64(match i {
+                    0 => e.p0,
+                    1 => e.p1,
+                    2 => e.p2,
+                    _ => 0xdead_0000 + i,
+                });
+            }
+            let (d, s) = cite_ctx(dump, s, ctx_location(c.cpu, &e.ctx));
+            dump = d.add_stream(synth::SimpleStream {
+                stream_type: md::MINIDUMP_STREAM_TYPE::ExceptionStream as u32,
+                section: s,
+            });
+        }
+    }
+    match &c.mi {
+        MiscSpec::None => {}
+        MiscSpec::Short => {
+            dump = dump.add_stream(synth::SimpleStream {
+                stream_type: md::MINIDUMP_STREAM_TYPE::MiscInfoStream as u32,
+                section: Section::with_endian(LE).D32(8).D32(3),
+            });
+        }
+        MiscSpec::Some { flags, pid, ctime, ver } => {
+            let size = match ver {
+                1 => md::MINIDUMP_MISC_INFO::size_with(&scroll::LE),
+                2 => md::MINIDUMP_MISC_INFO_2::size_with(&scroll::LE),
+                3 => md::MINIDUMP_MISC_INFO_3::size_with(&scroll::LE),
+                4 => md::MINIDUMP_MISC_INFO_4::size_with(&scroll::LE),
+                _ => md::MINIDUMP_MISC_INFO_5::size_with(&scroll::LE),
+            };
+            let s = Section::with_endian(LE)
+                .D32(size as u32)
+                .D32(*flags)
+                .D32(*pid)
+                .D32(*ctime)
+                .D32(7) // user time
+                .D32(9) // kernel time
+                .append_repeated(0, size - 24);
+            dump = dump.add_stream(synth::SimpleStream {
+                stream_type: md::MINIDUMP_STREAM_TYPE::MiscInfoStream as u32,
+                section: s,
+            });
+        }
+    }
+    if let Some(st) = &c.st {
+        let mut text = String::new();
+        for (k, v) in st {
+            let _ = write!(text, "{k}:\t{v}\n");
+        }
+        dump = dump.set_linux_proc_status(text.as_bytes());
+    }
+    for m in &c.mo {
+        let name = synth::DumpString::new(&m.name, LE);
+        dump = dump.add_module(synth::Module::new(LE, m.base, m.size, &name, 0, 0, None)).add(name);
+    }
+    for m in &c.um {
+        let name = synth::DumpString::new(&m.name, LE);
+        dump = dump.add_unloaded_module(synth::UnloadedModule::new(LE, m.base, m.size, &name, 0, 0)).add(name);
+    }
+    let mut bytes = dump.finish().expect("synth dump");
+    bytes[20..24].copy_from_slice(&c.ts.to_le_bytes());
+    bytes
+}
+
+// --------------------------------------------------------------------------------- execution
+
+fn opt<T: std::fmt::Display>(o: Option<T>) -> String {
+    match o {
+        Some(v) => v.to_string(),
+        None => "-".to_string(),
+    }
+}
+
+fn secs(t: std::time::SystemTime) -> Option<u64> {
+    t.duration_since(std::time::UNIX_EPOCH).ok().map(|d| d.as_secs())
+}
+
+fn reason_tag(r: &CrashReason) -> String {
+    format!("{r:?}").replace(' ', "")
+}
+
+struct Seen {
+    out: String,
+    state: Option<minidump_processor::ProcessState>,
+}
+
+fn run_impl(c: &Case) -> Seen {
+    let bytes = build_dump(c);
+    let dump = match Minidump::read(bytes) {
+        Ok(d) => d,
+        Err(e) => return Seen { out: format!("err:read:{e:?}"), state: None },
+    };
+    let provider = minidump_unwind::Symbolizer::new(minidump_unwind::string_symbol_supplier(Default::default()));
+    let rt = tokio::runtime::Builder::new_current_thread().build().expect("tokio runtime");
+    let res = rt.block_on(minidump_processor::process_minidump(&dump, &provider));
+    let state = match res {
+        Ok(s) => s,
+        Err(e) => return Seen { out: format!("err:{}", e.name()), state: None },
+    };
+    let mut out = String::from("threads:");
+    for (i, t) in state.threads.iter().enumerate() {
+        if i > 0 {
+            out.push(';');
+        }
+        let info = match t.info {
+            minidump_unwind::CallStackInfo::Ok => "ok",
+            minidump_unwind::CallStackInfo::MissingContext => "missing",
+            minidump_unwind::CallStackInfo::DumpThreadSkipped => "skipped",
+            _ => "other",
+        };
+        let mut offs: Vec<String> = vec![];
+        let mut extra = String::new();
+        if let Some(f) = t.frames.first() {
+            for (name, set) in &f.unloaded_modules {
+                offs.push(format!("{}={}", name, set.iter().map(|o| o.to_string()).collect::<Vec<_>>().join("+")));
+            }
+        }
+        if t.frames.len() > 1 {
+            let _ = write!(extra, "/frames={}", t.frames.len());
+        }
+        let _ = write!(
+            out,
+            "{}/{}/{}/{}/{}{}",
+            t.thread_id,
+            t.thread_name.as_deref().unwrap_or("-"),
+            info,
+            opt(t.frames.first().map(|f| f.instruction)),
+            offs.join("&"),
+            extra
+        );
+    }
+    let _ = write!(out, " req:{}", opt(state.requesting_thread));
+    match &state.exception_info {
+        Some(e) => {
+            let _ = write!(out, " exc:{} addr:{}", reason_tag(&e.reason), e.address.0);
+        }
+        None => out.push_str(" exc:- addr:-"),
+    }
+    let _ = write!(
+        out,
+        " pid:{} ctime:{} time:{}",
+        opt(state.process_id),
+        opt(state.process_create_time.and_then(secs)),
+        opt(secs(state.time))
+    );
+    let ml = |it: Vec<(u64, u64, String)>| {
+        it.iter().map(|(b, s, n)| format!("{b}:{s}:{n}")).collect::<Vec<_>>().join(",")
+    };
+    let _ = write!(
+        out,
+        " mods:{} umods:{}",
+        ml(state.modules.iter().map(|m| (m.base_address(), m.size(), m.code_file().to_string())).collect()),
+        ml(state.unloaded_modules.iter().map(|m| (m.base_address(), m.size(), m.code_file().to_string())).collect())
+    );
+    Seen { out, state: Some(state) }
+}
+
+// ------------------------------------------------------------------------------------ oracle
+// The property, re-stated independently of the Lean model, on the implementation's ProcessState.
+
+fn arch_has_context(arch: u16) -> bool {
+    context_bytes(arch, 0, false).is_some()
+}
+
+fn oracle(c: &Case, seen: &Seen) -> Vec<(String, String)> {
+    let mut bad: Vec<(String, String)> = vec![];
+    let mut fail = |class: &str, detail: String| bad.push((class.to_string(), detail));
+    let Some(threads) = &c.th else {
+        if seen.out != "err:MissingThreadList" {
+            fail("no-thread-list-not-reported", seen.out.clone());
+        }
+        return bad;
+    };
+    let Some(st) = &seen.state else {
+        fail("processable-dump-rejected", seen.out.clone());
+        return bad;
+    };
+    // 1. exactly one call stack per thread-list entry, in order, same ids and names
+    if st.threads.len() != threads.len() {
+        fail("stack-count", format!("{} stacks for {} threads", st.threads.len(), threads.len()));
+        return bad;
+    }
+    let dump_id = c.bp.and_then(|(v, d, _)| if v & 1 != 0 { Some(d) } else { None });
+    let bp_req = c.bp.and_then(|(v, _, r)| if v & 2 != 0 { Some(r) } else { None });
+    let exc = match &c.ex {
+        ExcSpec::Some(e) => Some(e),
+        _ => None,
+    };
+    let name_of = |id: u32| -> Option<&str> {
+        c.nm.as_ref()?.iter().rev().find(|(i, n)| *i == id && n.is_some()).and_then(|(_, n)| n.as_deref())
+    };
+    for (i, ((id, _), s)) in threads.iter().zip(st.threads.iter()).enumerate() {
+        if s.thread_id != *id {
+            fail("stack-order-or-id", format!("stack {i} has id {} but thread {i} has id {id}", s.thread_id));
+        }
+        if s.thread_name.as_deref() != name_of(*id) {
+            let class = if Some(*id) == dump_id { "dump-thread-name-dropped" } else { "thread-name" };
+            fail(class, format!("stack {i} (id {id}) is named {:?}, the names stream says {:?}", s.thread_name, name_of(*id)));
+        }
+    }
+    // 2. requesting thread: the non-dump-writer thread named by the exception record, else Breakpad's
+    let rid = match exc {
+        Some(e) => Some(e.tid),
+        None => bp_req,
+    };
+    let expect_req = threads.iter().rposition(|(id, _)| Some(*id) == rid && Some(*id) != dump_id);
+    if st.requesting_thread != expect_req {
+        fail("requesting-thread", format!("requesting_thread = {:?}, expected {:?}", st.requesting_thread, expect_req));
+    }
+    if let Some(r) = st.requesting_thread {
+        if r >= threads.len() || Some(threads[r].0) == dump_id {
+            fail("requesting-thread-is-dump-thread", format!("requesting_thread = {r}"));
+        }
+    }
+    // 3. the walk starts from the exception's context when one can be read
+    let readable = |x: &Ctx| match x {
+        Ctx::R(ip) if arch_has_context(c.cpu) => Some(*ip),
+        _ => None,
+    };
+    for (i, ((id, tctx), s)) in threads.iter().zip(st.threads.iter()).enumerate() {
+        let skipped = Some(*id) == dump_id;
+        let is_req = !skipped && Some(*id) == rid;
+        let expect = if skipped {
+            None
+        } else if is_req {
+            exc.and_then(|e| readable(&e.ctx)).or(readable(tctx))
+        } else {
+            readable(tctx)
+        };
+        let got = s.frames.first().map(|f| f.instruction);
+        if got != expect {
+            let class = if is_req { "context-preference" } else { "thread-context" };
+            fail(class, format!("stack {i}: first frame instruction {got:?}, expected {expect:?}"));
+        }
+        let info_ok = match (&s.info, skipped, expect) {
+            (minidump_unwind::CallStackInfo::DumpThreadSkipped, true, _) => true,
+            (minidump_unwind::CallStackInfo::Ok, false, Some(_)) => true,
+            (minidump_unwind::CallStackInfo::MissingContext, false, None) => true,
+            _ => false,
+        };
+        if !info_ok {
+            fail("stack-info", format!("stack {i}: info {:?}", s.info));
+        }
+        // 7. unloaded modules with per-frame offsets
+        if let Some(f) = s.frames.first() {
+            let a = f.instruction;
+            let valid = |m: &Mod| m.size != 0 && (m.size as u64) <= u64::MAX - m.base;
+            let in_loaded = f.module.is_some();
+            let ums: &[Mod] = if c.um.iter().all(valid) { &c.um } else { &[] };
+            let mut want: BTreeMap<String, std::collections::BTreeSet<u64>> = BTreeMap::new();
+            if !in_loaded {
+                for m in ums {
+                    if m.base <= a && a - m.base < m.size as u64 {
+                        want.entry(m.name.clone()).or_default().insert(a - m.base);
+                    }
+                }
+            }
+            if f.unloaded_modules != want {
+                fail("unloaded-offsets", format!("stack {i} at {a}: {:?}, expected {:?}", f.unloaded_modules, want));
+            }
+            // a frame inside a (valid, non-overlapped) loaded module must be attributed to it
+            let covering: Vec<&Mod> = c.mo.iter().filter(|m| valid(m) && m.base <= a && a - m.base < m.size as u64).collect();
+            if covering.is_empty() && in_loaded {
+                fail("frame-module", format!("stack {i} at {a}: attributed to a module that does not cover it"));
+            }
+        }
+    }
+    // 4. crash address: documented function of the record, OS and CPU; zero-extended on 32-bit CPUs
+    let os = Os::from_platform_id(c.os);
+    let cpu = Cpu::from_processor_architecture(c.cpu);
+    match (exc, &st.exception_info) {
+        (None, None) => {}
+        (Some(e), Some(info)) => {
+            // 0xc0000005 / 0xc0000006 are EXCEPTION_ACCESS_VIOLATION / EXCEPTION_IN_PAGE_ERROR (ntstatus.h)
+            let raw = if os == Os::Windows && (e.code == 0xc000_0005 || e.code == 0xc000_0006) && e.np >= 2 {
+                e.p1
+            } else {
+                e.addr
+            };
+            let want = if cpu.pointer_width() == PointerWidth::Bits32 { raw & 0xffff_ffff } else { raw };
+            if info.address.0 != want {
+                let class = if cpu.pointer_width() == PointerWidth::Bits32 && info.address.0 > 0xffff_ffff {
+                    "crash-address-not-zero-extended"
+                } else {
+                    "crash-address"
+                };
+                fail(class, format!("crash address {:#x}, expected {:#x}", info.address.0, want));
+            }
+            // 5. the reason's family belongs to the operating system
+            let tag = reason_tag(&info.reason);
+            let fam_ok = match os {
+                Os::Windows => tag.starts_with("Windows"),
+                Os::MacOs | Os::Ios => tag.starts_with("Mac") || tag.starts_with("Unknown("),
+                Os::Linux | Os::Android => tag.starts_with("Linux") || tag.starts_with("Unknown("),
+                _ => tag.starts_with("Unknown("),
+            };
+            if !fam_ok {
+                fail("reason-family", format!("{tag} on {os:?}"));
+            }
+            if tag.starts_with("Unknown(") && tag != format!("Unknown({},{})", e.code, e.flags) {
+                fail("reason-unknown-fields", tag.clone());
+            }
+            // the reason is the documented function of record, OS and CPU
+            if let Some(want) = expected_reason(e, os, cpu) {
+                if tag != want {
+                    fail("reason", format!("reason {tag}, documented {want} (os {os:?}, cpu {cpu:?})"));
+                }
+            }
+            let cls = match os {
+                Os::Windows => 'W',
+                Os::Linux | Os::Android => 'L',
+                Os::MacOs | Os::Ios => 'M',
+                _ => '-',
+            };
+            for (c, code, flags, want) in DOCUMENTED {
+                if *c == cls && *code == e.code && (*flags == e.flags || cls == 'W') && tag != *want {
+                    fail("reason-documented-constant", format!("reason {tag} for code {code:#x} flags {flags:#x}, the platform ABI says {want}"));
+                }
+            }
+            if cls == 'W' && e.code == 0xc000_0005 && e.np >= 1 {
+                let want = match e.p0 {
+                    0 => Some("WindowsAccessViolation(READ)"),
+                    1 => Some("WindowsAccessViolation(WRITE)"),
+                    8 => Some("WindowsAccessViolation(EXEC)"),
+                    _ => None,
+                };
+                if let Some(w) = want {
+                    if tag != w {
+                        fail("reason-documented-constant", format!("reason {tag}, the platform ABI says {w}"));
+                    }
+                }
+            }
+            if cls == 'W' && e.code == 0xc000_0409 && e.np >= 1 && tag != format!("WindowsStackBufferOverrun({})", e.p0 & 0xffff_ffff) {
+                fail("reason-documented-constant", format!("reason {tag} for STATUS_STACK_BUFFER_OVERRUN"));
+            }
+        }
+        (a, b) => fail("exception-info-presence", format!("exception stream {:?}, exception_info {:?}", a.is_some(), b.is_some())),
+    }
+    // 6. process id and times are those of the streams
+    let want_pid = match &c.mi {
+        MiscSpec::Some { flags, pid, .. } => {
+            if flags & 1 != 0 {
+                Some(*pid)
+            } else {
+                None
+            }
+        }
+        _ => c.st.as_ref().map(|kv| {
+            kv.iter().find(|(k, _)| k == "Pid").and_then(|(_, v)| v.parse::<u32>().ok()).unwrap_or(0)
+        }),
+    };
+    if st.process_id != want_pid {
+        fail("process-id", format!("{:?}, expected {:?}", st.process_id, want_pid));
+    }
+    let want_ct = match &c.mi {
+        MiscSpec::Some { flags, ctime, .. } if flags & 2 != 0 => Some(*ctime as u64),
+        _ => None,
+    };
+    if st.process_create_time.and_then(secs) != want_ct {
+        fail("create-time", format!("{:?}, expected {:?}", st.process_create_time, want_ct));
+    }
+    if secs(st.time) != Some(c.ts as u64) {
+        fail("dump-time", format!("{:?}, expected {}", st.time, c.ts));
+    }
+    // modules / unloaded modules mirror the streams (entries with an impossible size excepted)
+    let valid = |m: &Mod| m.size != 0 && (m.size as u64) <= u64::MAX - m.base;
+    let want_mods: Vec<(u64, u64, String)> =
+        c.mo.iter().filter(|m| valid(m)).map(|m| (m.base, m.size as u64, m.name.clone())).collect();
+    let got_mods: Vec<(u64, u64, String)> =
+        st.modules.iter().map(|m| (m.base_address(), m.size(), m.code_file().to_string())).collect();
+    if got_mods != want_mods {
+        fail("modules-mirror", format!("{got_mods:?}, expected {want_mods:?}"));
+    }
+    let want_um: Vec<(u64, u64, String)> = if c.um.iter().all(valid) {
+        c.um.iter().map(|m| (m.base, m.size as u64, m.name.clone())).collect()
+    } else {
+        vec![]
+    };
+    let got_um: Vec<(u64, u64, String)> =
+        st.unloaded_modules.iter().map(|m| (m.base_address(), m.size(), m.code_file().to_string())).collect();
+    if got_um != want_um {
+        fail("unloaded-modules-mirror", format!("{got_um:?}, expected {want_um:?}"));
+    }
+    bad
+}
+
+// ------------------------------------------------------------------- stack-memory selection
+// Oracle-only cases `index stackmem cpu=<0|9> esp=<addr|u> ra=<A|B>:<slot>` (processor.rs:1150-1167):
+// thread 1 (the exception thread) has stack memory A = [0x10000, +0x200) and its own context with
+// sp = A+0x10; the memory list also holds B = [0x20000, +0x200); a module covers [0x400000, +0x1000).
+// One return address into the module is stored at word `slot` of region A or B, everything else is 0.
+// The exception context (readable unless esp=u) has sp = esp. The walk must use the memory region that
+// contains the start context's stack pointer, so the scan finds the return address exactly when it
+// lies in that region at or above the stack pointer, within the scan window.
+
+const A_BASE: u64 = 0x10000;
+const B_BASE: u64 = 0x20000;
+const REG_SIZE: u64 = 0x200;
+const RA: u64 = 0x400310;
+
+fn exec_stackmem(case: &str) -> ImplResult {
+    let f: Vec<&str> = case.split(' ').filter(|s| !s.is_empty()).collect();
+    let bad = || ImplResult { out: "bad-op".into(), oracle: vec![("bad-case".into(), "unparsable stackmem case".into())], ..Default::default() };
+    if f.len() != 5 {
+        return bad();
+    }
+    let (Some(cpu), Some(esp), Some(ra)) = (kv(f[2], "cpu"), kv(f[3], "esp"), kv(f[4], "ra")) else {
+        return bad();
+    };
+    let Ok(cpu) = cpu.parse::<u16>() else { return bad() };
+    if cpu != 0 && cpu != 9 {
+        return bad();
+    }
+    let esp: Option<u64> = if esp == "u" { None } else { match esp.parse() { Ok(v) => Some(v), Err(_) => return bad() } };
+    let Some((reg, slot)) = ra.split_once(':') else { return bad() };
+    let Ok(slot) = slot.parse::<u64>() else { return bad() };
+    let w: u64 = if cpu == 0 { 4 } else { 8 };
+    if (reg != "A" && reg != "B") || (slot + 1) * w > REG_SIZE {
+        return bad();
+    }
+    let region = |with_ra: bool| -> Section {
+        let mut s = Section::with_endian(LE);
+        for i in 0..(REG_SIZE / w) {
+            let v = if with_ra && i == slot { RA } else { 0 };
+            s = if w == 4 { s.D32(v as u32) } else { s.D64(v) };
+        }
+        s
+    };
+    let mem_a = synth::Memory::with_section(region(reg == "A"), A_BASE);
+    let mem_b = synth::Memory::with_section(region(reg == "B"), B_BASE);
+    let tsp = A_BASE + 0x10;
+    let ctx = |ip: u64, sp: u64| -> Section {
+        if cpu == 0 { synth::x86_context(LE, ip as u32, sp as u32) } else { synth::amd64_context(LE, ip, sp) }
+    };
+    let tctx = ctx(0x400100, tsp);
+    let thread = synth::Thread::new(LE, 1, &mem_a, &tctx);
+    let name = synth::DumpString::new("mod", LE);
+    let mut dump = synth::SynthMinidump::with_endian(LE)
+        .add_system_info(synth::SystemInfo::new(LE).set_processor_architecture(cpu).set_platform_id(LINUX))
+        .add_module(synth::Module::new(LE, 0x400000, 0x1000, &name, 0, 0, None))
+        .add(name)
+        .add_thread(thread)
+        .add(tctx)
+        .add_memory(mem_a)
+        .add_memory(mem_b);
+    let mut exc = Section::with_endian(LE).D32(1).D32(0).D32(11).D32(1).D64(0).D64(0x1234).D32(0).D32(0);
+    for _ in 0..15 {
+        exc = exc.D64(0);
+    }
+    match esp {
+        Some(sp) => {
+            let ectx = ctx(0x400200, sp);
+            exc = exc.cite_location(&ectx);
+            dump = dump.add(ectx);
+        }
+        None => exc = exc.D32(0).D32(0),
+    }
+    dump = dump.add_stream(synth::SimpleStream { stream_type: md::MINIDUMP_STREAM_TYPE::ExceptionStream as u32, section: exc });
+    let bytes = dump.finish().expect("synth dump");
+    let md_dump = Minidump::read(bytes).expect("readable dump");
+    let provider = minidump_unwind::Symbolizer::new(minidump_unwind::string_symbol_supplier(Default::default()));
+    let rt = tokio::runtime::Builder::new_current_thread().build().expect("tokio runtime");
+    let state = match rt.block_on(minidump_processor::process_minidump(&md_dump, &provider)) {
+        Ok(s) => s,
+        Err(e) => return ImplResult { out: format!("err:{}", e.name()), oracle: vec![("processable-dump-rejected".into(), e.name().into())], ..Default::default() },
+    };
+    let t = &state.threads[0];
+    let frames: Vec<String> = t.frames.iter().map(|f| format!("{}@{}", f.instruction, f.context.get_stack_pointer())).collect();
+    let out = format!("req:{} frames:{}", opt(state.requesting_thread), frames.join(","));
+    // the documented rule
+    let start_sp = esp.unwrap_or(tsp);
+    let in_reg = |base: u64, a: u64| a >= base && a < base + REG_SIZE;
+    let selected: Option<u64> = if in_reg(A_BASE, start_sp) {
+        Some(A_BASE)
+    } else if in_reg(B_BASE, start_sp) {
+        Some(B_BASE)
+    } else {
+        Some(A_BASE) // fallback: the thread's own stack memory (the walk then stops at once)
+    };
+    let ra_addr = (if reg == "A" { A_BASE } else { B_BASE }) + slot * w;
+    let found = match selected {
+        Some(base) => {
+            in_reg(base, start_sp)
+                && in_reg(base, ra_addr)
+                && ra_addr >= start_sp
+                && (ra_addr - start_sp) % w == 0
+                && (ra_addr - start_sp) / w < 160
+        }
+        None => false,
+    };
+    let mut oracle = vec![];
+    let first_ip = if esp.is_some() { 0x400200 } else { 0x400100 };
+    if t.frames.first().map(|f| (f.instruction, f.context.get_stack_pointer())) != Some((first_ip, start_sp)) {
+        oracle.push(("context-preference".to_string(), format!("first frame {:?}, expected ip {first_ip} sp {start_sp}", frames.first())));
+    }
+    let has_caller = t.frames.len() >= 2;
+    if has_caller != found {
+        oracle.push((
+            "stack-memory-selection".to_string(),
+            format!("{} frames; the return address at {ra_addr:#x} {} reachable from sp {start_sp:#x} in the region containing sp", t.frames.len(), if found { "is" } else { "is not" }),
+        ));
+    }
+    if found && has_caller && (t.frames[1].instruction != RA - 1 || t.frames[1].context.get_stack_pointer() != ra_addr + w) {
+        oracle.push(("stack-memory-selection".to_string(), format!("caller frame {}, expected {}@{}", frames[1], RA - 1, ra_addr + w)));
+    }
+    ImplResult {
+        out,
+        oracle,
+        nontrivial: true,
+        tags: vec![format!("stackmem:{}", if found { "caller-found" } else { "context-only" })],
+    }
+}
+
+// --------------------------------------------------------------------------------- generator
+
+/// (value, variant name) literals of the enums in the repository's error tables, read loosely at
+/// run time (a second, independent reading of the same files the Lean translator reads strictly).
+/// Used to aim the generator at interesting codes and by the oracle's statement of the documented
+/// reason function.
+type Tables = BTreeMap<String, Vec<(u64, String)>>;
+
+fn source_tables() -> &'static Tables {
+    static T: std::sync::OnceLock<Tables> = std::sync::OnceLock::new();
+    T.get_or_init(|| {
+        let repo = std::env::var("VERIF_REPO").unwrap_or_else(|_| "/repo".to_string());
+        let mut out: Tables = BTreeMap::new();
+        for f in ["windows.rs", "linux.rs", "macos.rs"] {
+            let Ok(text) = std::fs::read_to_string(format!("{repo}/minidump-common/src/errors/{f}")) else {
+                continue;
+            };
+            let mut cur: Option<String> = None;
+            for l in text.lines() {
+                let t = l.trim();
+                if t.starts_with("//") {
+                    continue;
+                }
+                if let Some(rest) = t.strip_prefix("pub enum ") {
+                    cur = Some(rest.trim_end_matches('{').trim().to_string());
+                } else if t == "}" {
+                    cur = None;
+                } else if let (Some(e), Some((name, v))) = (&cur, t.split_once(" = ")) {
+                    let v = v.trim_end_matches(',').trim_end_matches("u32").trim_end_matches("u64").trim_end_matches("i32");
+                    let n = if let Some(h) = v.strip_prefix("0x") { u64::from_str_radix(h, 16).ok() } else { v.parse().ok() };
+                    if let Some(n) = n {
+                        out.entry(e.clone()).or_default().push((n, name.trim().to_string()));
+                    }
+                }
+            }
+        }
+        out
+    })
+}
+
+fn source_codes() -> BTreeMap<String, Vec<u64>> {
+    source_tables().iter().map(|(k, v)| (k.clone(), v.iter().map(|e| e.0).collect())).collect()
+}
+
+fn look<'a>(en: &str, v: u64) -> Option<&'a str> {
+    source_tables().get(en)?.iter().find(|e| e.0 == v).map(|e| e.1.as_str())
+}
+
+/// The documented reason function (doc comments of `CrashReason::from_*_exception` and the enum
+/// tables), stated independently of the implementation's control flow: returns the expected `{:?}`
+/// tag without blanks. `None` when the tables could not be read.
+fn expected_reason(e: &Exc, os: Os, cpu: Cpu) -> Option<String> {
+    if source_tables().is_empty() {
+        return None;
+    }
+    let code = e.code as u64;
+    let flags = e.flags as u64;
+    let unknown = format!("Unknown({},{})", e.code, e.flags);
+    Some(match os {
+        Os::Windows => {
+            if let Some(n) = look("ExceptionCodeWindows", code) {
+                if n == "EXCEPTION_ACCESS_VIOLATION" && e.np >= 1 {
+                    if let Some(ty) = look("ExceptionCodeWindowsAccessType", e.p0) {
+                        return Some(format!("WindowsAccessViolation({ty})"));
+                    }
+                }
+                if n == "EXCEPTION_IN_PAGE_ERROR" && e.np >= 3 {
+                    if let Some(ty) = look("ExceptionCodeWindowsInPageErrorType", e.p0) {
+                        return Some(format!("WindowsInPageError({ty},{})", e.p2 & 0xffff_ffff));
+                    }
+                }
+                format!("WindowsGeneral({n})")
+            } else if let Some(n) = look("WinErrorWindows", code) {
+                format!("WindowsWinError({n})")
+            } else if let Some(n) = look("NtStatusWindows", code) {
+                if n == "STATUS_STACK_BUFFER_OVERRUN" && e.np >= 1 {
+                    format!("WindowsStackBufferOverrun({})", e.p0 & 0xffff_ffff)
+                } else {
+                    format!("WindowsNtStatus({n})")
+                }
+            } else {
+                let fac = look("WinErrorFacilityWindows", (code >> 16) & 0xfff);
+                let err = look("WinErrorWindows", code & 0xffff);
+                match (code & 0xf000_0000 != 0, fac, err) {
+                    (true, Some(f), Some(er)) => format!("WindowsWinErrorWithFacility({f},{er})"),
+                    _ => format!("WindowsUnknown({})", e.code),
+                }
+            }
+        }
+        Os::Linux | Os::Android => match look("ExceptionCodeLinux", code) {
+            None => unknown,
+            Some(sig) => {
+                let refined = ["SIGILL", "SIGTRAP", "SIGFPE", "SIGSEGV", "SIGBUS", "SIGSYS"].contains(&sig);
+                // SIGSEGV -> family LinuxSigsegv, table ExceptionCodeLinuxSigsegvKind
+                let stem = format!("Sig{}", sig[3..].to_ascii_lowercase());
+                match look(&format!("ExceptionCodeLinux{stem}Kind"), flags) {
+                    Some(kind) if refined => format!("Linux{stem}({kind})"),
+                    _ => format!("LinuxGeneral({sig},{})", e.flags),
+                }
+            }
+        },
+        Os::MacOs | Os::Ios => match look("ExceptionCodeMac", code) {
+            None => unknown,
+            Some(exc) => {
+                let cls = match cpu {
+                    Cpu::Arm64 => "Arm",
+                    Cpu::Ppc => "Ppc",
+                    Cpu::X86 | Cpu::X86_64 => "X86",
+                    _ => "",
+                };
+                let general = format!("MacGeneral({exc},{})", e.flags);
+                let per_cpu = |stem: &str| -> String {
+                    if cls.is_empty() {
+                        return general.clone();
+                    }
+                    match look(&format!("ExceptionCodeMac{stem}{cls}Type"), flags) {
+                        Some(ty) => format!("Mac{stem}{cls}({ty})"),
+                        None => general.clone(),
+                    }
+                };
+                let top3 = (flags >> 29) & 7;
+                match exc {
+                    "EXC_BAD_ACCESS" => match look("ExceptionCodeMacBadAccessKernType", flags) {
+                        Some(k) => format!("MacBadAccessKern({k})"),
+                        None => per_cpu("BadAccess"),
+                    },
+                    "EXC_BAD_INSTRUCTION" => per_cpu("BadInstruction"),
+                    "EXC_ARITHMETIC" => per_cpu("Arithmetic"),
+                    "EXC_BREAKPOINT" => per_cpu("Breakpoint"),
+                    "EXC_SOFTWARE" => match look("ExceptionCodeMacSoftwareType", flags) {
+                        Some(t) => format!("MacSoftware({t})"),
+                        None => general,
+                    },
+                    "EXC_RESOURCE" => match look("ExceptionCodeMacResourceType", top3) {
+                        Some(t) => format!("MacResource({t},{},{})", e.p1, e.p2),
+                        None => general,
+                    },
+                    "EXC_GUARD" => match look("ExceptionCodeMacGuardType", top3) {
+                        Some(t) => format!("MacGuard({t},{},{})", e.p1, e.p2),
+                        None => general,
+                    },
+                    _ => general,
+                }
+            }
+        },
+        _ => unknown,
+    })
+}
+
+/// Platform-ABI constants that the enum tables document (ntstatus.h, asm-generic/siginfo.h,
+/// mach/exception_types.h, kern_return.h): (os class, code, flags, expected tag). Checked by the
+/// oracle so that a silently changed table value yields a failing input.
+/// os class: 'W' Windows, 'L' Linux/Android, 'M' macOS/iOS (any CPU unless the tag is CPU specific).
+const DOCUMENTED: &[(char, u32, u32, &str)] = &[
+    ('L', 11, 1, "LinuxSigsegv(SEGV_MAPERR)"),
+    ('L', 11, 2, "LinuxSigsegv(SEGV_ACCERR)"),
+    ('L', 7, 1, "LinuxSigbus(BUS_ADRALN)"),
+    ('L', 7, 2, "LinuxSigbus(BUS_ADRERR)"),
+    ('L', 4, 1, "LinuxSigill(ILL_ILLOPC)"),
+    ('L', 4, 2, "LinuxSigill(ILL_ILLOPN)"),
+    ('L', 8, 1, "LinuxSigfpe(FPE_INTDIV)"),
+    ('L', 8, 3, "LinuxSigfpe(FPE_FLTDIV)"),
+    ('L', 5, 1, "LinuxSigtrap(TRAP_BRKPT)"),
+    ('L', 31, 1, "LinuxSigsys(SYS_SECCOMP)"),
+    ('L', 6, 0, "LinuxGeneral(SIGABRT,0)"),
+    ('L', 9, 0, "LinuxGeneral(SIGKILL,0)"),
+    ('L', 13, 0, "LinuxGeneral(SIGPIPE,0)"),
+    ('M', 1, 1, "MacBadAccessKern(KERN_INVALID_ADDRESS)"),
+    ('M', 1, 2, "MacBadAccessKern(KERN_PROTECTION_FAILURE)"),
+    ('M', 10, 0, "Unknown(10,0)"),
+    ('M', 5, 0x10002, "MacSoftware(SIGABRT)"),
+    ('W', 0x8000_0003, 0, "WindowsGeneral(EXCEPTION_BREAKPOINT)"),
+    ('W', 0xc000_001d, 0, "WindowsGeneral(EXCEPTION_ILLEGAL_INSTRUCTION)"),
+    ('W', 0xc000_0094, 0, "WindowsGeneral(EXCEPTION_INT_DIVIDE_BY_ZERO)"),
+    ('W', 0xc000_00fd, 0, "WindowsGeneral(EXCEPTION_STACK_OVERFLOW)"),
+    ('W', 0xc000_0017, 0, "WindowsNtStatus(STATUS_NO_MEMORY)"),
+    ('W', 5, 0, "WindowsWinError(ERROR_ACCESS_DENIED)"),
+    ('W', 0xe06d_7363, 0, "WindowsGeneral(UNHANDLED_CPP_EXCEPTION)"),
+];
+
+const PLATFORMS: &[u32] = &[0, 1, 2, 3, 4, 0x8000, 0x8101, 0x8102, 0x8201, 0x8202, 0x8203, 0x8204, 0x8205, 0x8206, 77, 0xffff_ffff];
+const ARCHS: &[u16] = &[0, 1, 2, 3, 4, 5, 6, 7, 8, 9, 10, 11, 12, 0x8001, 0x8002, 0x8003, 0x8004, 0x8005, 0xffff];
+const WIN: u32 = 3;
+const MAC: u32 = 0x8101;
+const LINUX: u32 = 0x8201;
+
+fn minimal(os: u32, cpu: u16, e: Exc) -> Case {
+    Case {
+        ts: 1,
+        os,
+        cpu,
+        th: Some(vec![(e.tid, Ctx::R(4096))]),
+        nm: None,
+        bp: None,
+        ex: ExcSpec::Some(e),
+        mi: MiscSpec::None,
+        st: None,
+        mo: vec![],
+        um: vec![],
+    }
+}
+
+fn pick_u64(rng: &mut Rng) -> u64 {
+    match rng.below(8) {
+        0 => 0,
+        1 => rng.below(0x1_0000),
+        2 => 0xffff_ffff_0000_0000 | rng.below(0x1_0000_0000), // sign-extended 32-bit value
+        3 => rng.below(0x1_0000_0000),
+        4 => u64::MAX - rng.below(4),
+        5 => 0xffff_ffff + rng.below(3),
+        _ => rng.next(),
+    }
+}
+
+fn gen_random(rng: &mut Rng, codes: &BTreeMap<String, Vec<u64>>, big: bool) -> Case {
+    let os = if rng.chance(3, 4) { *rng.pick(&[1, 2, 3, MAC, 0x8102, LINUX, 0x8203]) } else { *rng.pick(PLATFORMS) };
+    let cpu = if rng.chance(3, 4) { *rng.pick(&[0, 9, 5, 12, 3, 1, 0x8001, 0x8002, 0x8003, 10]) } else { *rng.pick(ARCHS) };
+    let is32ctx = matches!(cpu, 0 | 10 | 3 | 5);
+    let n = if big {
+        rng.range(7, 32)
+    } else {
+        *rng.pick(&[0, 1, 1, 2, 2, 3, 3, 4, 5, 6])
+    } as usize;
+    let pool: Vec<u32> = match rng.below(4) {
+        0 => vec![1, 2, 3],
+        1 => vec![0, 1, 2, 3, 4, 5, 6, 7],
+        2 => vec![7, 0xffff_ffff, 0x8000_0000, 100],
+        _ => (1..=(n as u32 + 2)).collect(),
+    };
+    let gen_ctx = |rng: &mut Rng, salt: u64| -> Ctx {
+        if rng.chance(1, 4) {
+            Ctx::U(rng.below(5) as u8)
+        } else {
+            let ip = 0x1000 * (1 + salt) + rng.below(0x40) * 0x10;
+            Ctx::R(if is32ctx { ip & 0xffff_ffff } else if rng.chance(1, 8) { ip | 0x7fff_0000_0000 } else { ip })
+        }
+    };
+    let mut th: Vec<(u32, Ctx)> = vec![];
+    for i in 0..n {
+        let id = if rng.chance(1, 12) { rng.next() as u32 } else { *rng.pick(&pool) };
+        th.push((id, gen_ctx(rng, i as u64)));
+    }
+    let th = if rng.chance(1, 40) { None } else { Some(th) };
+    let ids: Vec<u32> = th.iter().flatten().map(|t| t.0).collect();
+    let some_id = |rng: &mut Rng| -> u32 {
+        if !ids.is_empty() && rng.chance(4, 5) {
+            *rng.pick(&ids)
+        } else {
+            *rng.pick(&pool) ^ (rng.below(2) as u32 * 0x40)
+        }
+    };
+    let nm = match rng.below(4) {
+        0 => None,
+        _ => {
+            let k = rng.below(n as u64 + 3) as usize;
+            let mut v = vec![];
+            for j in 0..k {
+                let id = some_id(rng);
+                let name = if rng.chance(1, 5) { None } else { Some(format!("t{}_{}", id % 1000, j)) };
+                v.push((id, name));
+            }
+            Some(v)
+        }
+    };
+    let bp = if rng.chance(2, 5) {
+        None
+    } else {
+        let v = *rng.pick(&[0u32, 1, 2, 3, 3, 3, 7, 0xffff_fffd, 0xffff_fffe, 4]);
+        Some((v, some_id(rng), some_id(rng)))
+    };
+    let dump_id = bp.map(|b| b.1);
+    let ex = match rng.below(20) {
+        0..=4 => ExcSpec::None,
+        5 => ExcSpec::Short,
+        _ => {
+            let tid = match rng.below(6) {
+                0 => dump_id.unwrap_or(99),
+                1 => 0xdead_beef,
+                _ => some_id(rng),
+            };
+            let (code, flags) = gen_code_flags(rng, os, codes);
+            let np = *rng.pick(&[0u32, 1, 2, 2, 3, 3, 4, 15, 16, 0xffff_ffff]);
+            let p0 = *rng.pick(&[0u64, 1, 8, 2, 0x1_0000_0000, 0x1_0000_0001, u64::MAX]);
+            ExcSpec::Some(Exc {
+                tid,
+                code,
+                flags,
+                addr: pick_u64(rng),
+                np,
+                p0: if rng.chance(1, 6) { rng.next() } else { p0 },
+                p1: pick_u64(rng),
+                p2: if rng.chance(1, 2) { *rng.pick(codes.get("NtStatusWindows").map(|v| v.as_slice()).unwrap_or(&[0xc000_000e])) | (rng.below(2) << 32) } else { pick_u64(rng) },
+                ctx: gen_ctx(rng, 200),
+            })
+        }
+    };
+    let mi = match rng.below(8) {
+        0..=2 => MiscSpec::None,
+        3 => MiscSpec::Short,
+        _ => MiscSpec::Some {
+            flags: if rng.chance(3, 4) { rng.below(4) as u32 } else { rng.next() as u32 },
+            pid: if rng.chance(1, 4) { 0 } else { rng.next() as u32 },
+            ctime: if rng.chance(1, 4) { 0 } else { rng.next() as u32 },
+            ver: rng.range(1, 5) as u8,
+        },
+    };
+    let st = match rng.below(6) {
+        0..=2 => None,
+        3 => Some(vec![]),
+        _ => {
+            let mut v = vec![("Name".to_string(), "crasher".to_string())];
+            let k = rng.below(3);
+            for _ in 0..k {
+                let val = match rng.below(7) {
+                    0 => "abc".to_string(),
+                    1 => "4294967296".to_string(),
+                    2 => "4294967295".to_string(),
+                    3 => format!("+{}", rng.below(1000)),
+                    4 => "-5".to_string(),
+                    _ => rng.below(100_000).to_string(),
+                };
+                v.push((rng.pick(&["Pid", "Pid", "Tgid", "PPid", "pid"]).to_string(), val));
+            }
+            Some(v)
+        }
+    };
+    // modules placed around the instruction pointers in use
+    let ips: Vec<u64> = th
+        .iter()
+        .flatten()
+        .filter_map(|t| if let Ctx::R(ip) = t.1 { Some(ip) } else { None })
+        .chain(match &ex {
+            ExcSpec::Some(Exc { ctx: Ctx::R(ip), .. }) => Some(*ip),
+            _ => None,
+        })
+        .collect();
+    let gen_mods = |rng: &mut Rng, prefix: &str, max: u64| -> Vec<Mod> {
+        let k = rng.below(max + 1);
+        let mut v = vec![];
+        for j in 0..k {
+            let anchor = if !ips.is_empty() && rng.chance(4, 5) { *rng.pick(&ips) } else { rng.below(0x10000) };
+            let back = rng.below(0x300);
+            let base = anchor.saturating_sub(back);
+            let size = match rng.below(10) {
+                0 => 0,
+                1 => back as u32, // ends just below the anchor
+                2 => back as u32 + 1,
+                _ => (back + rng.below(0x400)) as u32,
+            };
+            let (base, size) = if rng.chance(1, 25) { (u64::MAX - rng.below(16), rng.below(32) as u32) } else { (base, size) };
+            let name = if rng.chance(1, 4) { format!("{prefix}same") } else { format!("{prefix}{j}") };
+            v.push(Mod { base, size, name });
+        }
+        v
+    };
+    let mo = gen_mods(rng, "m", 2);
+    let um = gen_mods(rng, "u", 4);
+    Case { ts: rng.next() as u32, os, cpu, th, nm, bp, ex, mi, st, mo, um }
+}
+
+fn gen_code_flags(rng: &mut Rng, os: u32, codes: &BTreeMap<String, Vec<u64>>) -> (u32, u32) {
+    let from = |rng: &mut Rng, names: &[&str]| -> u64 {
+        let n = *rng.pick(names);
+        match codes.get(n) {
+            Some(v) if !v.is_empty() => *rng.pick(v),
+            _ => rng.below(64),
+        }
+    };
+    let near = |rng: &mut Rng, v: u64| -> u32 {
+        match rng.below(10) {
+            0 => v.wrapping_add(1) as u32,
+            1 => v.wrapping_sub(1) as u32,
+            _ => v as u32,
+        }
+    };
+    let r = rng.below(10);
+    if r == 0 {
+        return (rng.next() as u32, rng.next() as u32);
+    }
+    match os {
+        1 | 2 | 3 => {
+            let code = match rng.below(8) {
+                0 | 1 => *rng.pick(&[0xc000_0005u64, 0xc000_0006, 0xc000_0409]),
+                2 => from(rng, &["ExceptionCodeWindows"]),
+                3 => from(rng, &["WinErrorWindows"]),
+                4 => from(rng, &["NtStatusWindows"]),
+                5 => (*rng.pick(&[0x8000_0000u64, 0xc000_0000, 0x1000_0000, 0])) | (*rng.pick(&[109u64, 108, 110, 0]) << 16) | from(rng, &["WinErrorWindows"]) & 0xffff,
+                _ => from(rng, &["ExceptionCodeWindows", "WinErrorWindows", "NtStatusWindows"]),
+            };
+            (near(rng, code), rng.below(3) as u32)
+        }
+        MAC | 0x8102 => {
+            let code = from(rng, &["ExceptionCodeMac"]);
+            let flags = match rng.below(6) {
+                0 => rng.below(16),
+                1 => (rng.below(8) << 29) | rng.below(0x100),
+                _ => from(
+                    rng,
+                    &[
+                        "ExceptionCodeMacBadAccessKernType",
+                        "ExceptionCodeMacBadAccessArmType",
+                        "ExceptionCodeMacBadAccessPpcType",
+                        "ExceptionCodeMacBadAccessX86Type",
+                        "ExceptionCodeMacBadInstructionArmType",
+                        "ExceptionCodeMacBadInstructionPpcType",
+                        "ExceptionCodeMacBadInstructionX86Type",
+                        "ExceptionCodeMacArithmeticArmType",
+                        "ExceptionCodeMacArithmeticPpcType",
+                        "ExceptionCodeMacArithmeticX86Type",
+                        "ExceptionCodeMacSoftwareType",
+                        "ExceptionCodeMacBreakpointArmType",
+                        "ExceptionCodeMacBreakpointPpcType",
+                        "ExceptionCodeMacBreakpointX86Type",
+                    ],
+                ),
+            };
+            (near(rng, code), near(rng, flags))
+        }
+        _ => {
+            let code = from(rng, &["ExceptionCodeLinux"]);
+            let flags = match rng.below(4) {
+                0 => from(rng, &["ExceptionCodeLinuxSicode"]),
+                _ => rng.below(11),
+            };
+            (near(rng, code), near(rng, flags))
+        }
+    }
+}
+
+fn exc0(code: u32, flags: u32) -> Exc {
+    Exc { tid: 1, code, flags, addr: 0x1234, np: 3, p0: 1, p1: 0xffff_ffff_8000_0010, p2: 0x1_c000_000e, ctx: Ctx::U(0) }
+}
 
 impl Engine for Index {
     fn name(&self) -> &'static str {
         "index"
     }
     fn rule(&self) -> String {
-        "not implemented".into()
+        "abstract dump descriptions (0..32 threads with duplicate/missing ids, thread names with duplicates and \
+         unreadable strings, Breakpad info validity bits, exception stream absent/short/present with thread id \
+         absent/present/equal to the dump-writer thread, five kinds of unreadable context for either source, every \
+         PlatformId x ProcessorArchitecture value and unknown ones, exception codes/flags from the repository's enum \
+         tables and their neighbours and random u32, parameter counts 0..16 and 2^32-1, sign-extended addresses, \
+         misc-info flag combinations in all five struct versions, /proc/status streams, loaded/unloaded modules \
+         around the frame addresses incl. impossible sizes) are turned into dump bytes with minidump-synth + raw \
+         sections and processed by the real process_minidump; the canonical rendering of ProcessState is compared \
+         with the Lean model on the same description, and the property oracle (stack per thread in order with ids \
+         and names, requesting-thread rule, context preference, crash address incl. zero-extension, reason family \
+         per OS, pid/times, module mirrors, unloaded offsets) is evaluated on the implementation alone. Exhaustive \
+         part: every literal of the Windows/Linux/macOS exception enums as exception code (and every macOS/Linux \
+         sub-code as flags, per CPU class). non-trivial = processed dump with at least one thread and an exception \
+         stream or Breakpad info."
+            .into()
     }
-    fn generate(&self, _tier: Tier, _rng: &mut Rng, _emit: &mut dyn FnMut(String)) {}
-    fn exec(&self, _case: &str) -> ImplResult {
-        ImplResult::default()
+    fn exhaustive_part(&self) -> Option<String> {
+        Some(
+            "every discriminant literal of minidump-common/src/errors/{windows,linux,macos}.rs used as exception code \
+             (Windows: all of ExceptionCodeWindows/WinErrorWindows/NtStatusWindows; macOS: every code x every sub-code \
+             literal x {arm64, ppc, x86, amd64, arm}; Linux: every signal x flags 0..10) — validates the translated \
+             tables entry by entry against the real from_u32"
+                .into(),
+        )
+    }
+
+    fn generate(&self, tier: Tier, rng: &mut Rng, emit: &mut dyn FnMut(String)) {
+        let codes = source_codes();
+        let get = |n: &str| codes.get(n).cloned().unwrap_or_default();
+        // --- exhaustive: the enum tables, entry by entry
+        for n in ["ExceptionCodeWindows", "WinErrorWindows", "NtStatusWindows"] {
+            for v in get(n) {
+                emit(minimal(WIN, 9, exc0(v as u32, 0)).line());
+            }
+        }
+        for v in get("WinErrorWindows").iter().step_by(if tier == Tier::Quick { 16 } else { 1 }) {
+            for fac in [109u32, 108] {
+                emit(minimal(WIN, 0, exc0(0x8000_0000 | (fac << 16) | (*v as u32 & 0xffff), 0)).line());
+            }
+        }
+        let mut mac_flags: Vec<u64> = vec![];
+        for (k, v) in &codes {
+            if k.starts_with("ExceptionCodeMac") && k != "ExceptionCodeMac" && (k.contains("BadAccess") || k.contains("BadInstruction") || k.contains("Arithmetic") || k.contains("Software") || k.contains("Breakpoint")) {
+                mac_flags.extend(v);
+            }
+        }
+        for t in 0..8u64 {
+            mac_flags.push(t << 29);
+            mac_flags.push((t << 29) | 0x1234);
+        }
+        mac_flags.extend([0u64, 0x1000, 0xffff_ffff]);
+        mac_flags.sort();
+        mac_flags.dedup();
+        let mut mac_codes = get("ExceptionCodeMac");
+        mac_codes.extend([0, 10, 13]);
+        for cpu in [12u16, 3, 0, 9, 5] {
+            for code in &mac_codes {
+                for fl in &mac_flags {
+                    emit(minimal(MAC, cpu, exc0(*code as u32, *fl as u32)).line());
+                }
+            }
+        }
+        let mut linux_codes = get("ExceptionCodeLinux");
+        linux_codes.extend([0, 32, 64]);
+        for code in &linux_codes {
+            for fl in 0..=10u32 {
+                emit(minimal(LINUX, 9, exc0(*code as u32, fl)).line());
+            }
+        }
+        // --- every OS x CPU with one Windows, one mac and one Linux shaped record
+        for os in PLATFORMS {
+            for cpu in ARCHS {
+                for (code, flags) in [(0xc000_0005u32, 0u32), (1, 2), (11, 1)] {
+                    let mut e = exc0(code, flags);
+                    e.ctx = Ctx::R(0x7000);
+                    e.np = 2;
+                    let mut c = minimal(*os, *cpu, e);
+                    c.th = Some(vec![(2, Ctx::R(0x1000)), (1, Ctx::R(0x2000)), (1, Ctx::U(3))]);
+                    emit(c.line());
+                }
+            }
+        }
+        // --- misc-info flag combinations x versions x status presence
+        for flags in [0u32, 1, 2, 3, 4, 0xffff_fffc, 0xffff_ffff] {
+            for ver in 1..=5u8 {
+                for st in [None, Some(vec![("Pid".to_string(), "77".to_string())])] {
+                    let mut c = minimal(LINUX, 9, exc0(11, 1));
+                    c.mi = MiscSpec::Some { flags, pid: 4242, ctime: 1_600_000_000, ver };
+                    c.st = st;
+                    emit(c.line());
+                }
+            }
+        }
+        // --- oracle-only: the stack memory is the region that contains the start context's stack pointer
+        for cpu in [0u16, 9] {
+            for esp in ["u", "65568", "131072", "131104", "131576", "196608", "66040"] {
+                for reg in ["A", "B"] {
+                    for slot in [4u64, 8, 40, 62] {
+                        emit(format!("index stackmem cpu={cpu} esp={esp} ra={reg}:{slot}"));
+                    }
+                }
+            }
+        }
+        // --- random
+        let n = if tier == Tier::Quick { 6000 } else { 80000 };
+        for i in 0..n {
+            let big = i % 10 == 0;
+            emit(gen_random(rng, &codes, big).line());
+        }
+    }
+
+    fn model_request(&self, case: &str) -> Option<String> {
+        // `index stackmem ..` cases are oracle-only (the model does not walk stacks)
+        if case.starts_with("index stackmem ") {
+            None
+        } else {
+            Some(case.to_string())
+        }
+    }
+
+    fn exec(&self, case: &str) -> ImplResult {
+        if case.starts_with("index stackmem ") {
+            return match catch(|| exec_stackmem(case)) {
+                Ok(r) => r,
+                Err(msg) => ImplResult { out: "PANIC".into(), oracle: vec![("panic".into(), msg)], nontrivial: false, tags: vec!["panic".into()] },
+            };
+        }
+        let Some(c) = parse_case(case) else {
+            return ImplResult { out: "bad-op".into(), ..Default::default() };
+        };
+        let seen = match catch(|| run_impl(&c)) {
+            Ok(s) => s,
+            Err(msg) => {
+                return ImplResult {
+                    out: "PANIC".into(),
+                    oracle: vec![("panic".into(), msg)],
+                    nontrivial: false,
+                    tags: vec!["panic".into()],
+                }
+            }
+        };
+        let oracle = oracle(&c, &seen);
+        let mut tags = vec![];
+        let n = c.th.as_ref().map(|t| t.len()).unwrap_or(0);
+        tags.push(format!("threads:{}", match n { 0 => "0", 1 => "1", 2..=6 => "2-6", _ => "7-32" }));
+        tags.push(format!("os:{:?}", Os::from_platform_id(c.os)).split('(').next().unwrap().to_string());
+        tags.push(format!("cpu:{:?}", Cpu::from_processor_architecture(c.cpu)).split('(').next().unwrap().to_string());
+        tags.push(format!("exc:{}", match &c.ex { ExcSpec::None => "none", ExcSpec::Short => "short", ExcSpec::Some(_) => "some" }));
+        if let Some(st) = &seen.state {
+            if let Some(e) = &st.exception_info {
+                tags.push(format!("reason:{}", reason_tag(&e.reason).split('(').next().unwrap()));
+            }
+            tags.push(format!("req:{}", if st.requesting_thread.is_some() { "some" } else { "none" }));
+            for t in &st.threads {
+                tags.push(format!("info:{:?}", t.info));
+                if t.frames.first().is_some_and(|f| !f.unloaded_modules.is_empty()) {
+                    tags.push("frame-in-unloaded".into());
+                }
+                if t.frames.first().is_some_and(|f| f.module.is_some()) {
+                    tags.push("frame-in-loaded".into());
+                }
+            }
+            if let (ExcSpec::Some(e), Some(th)) = (&c.ex, &c.th) {
+                let dump_id = c.bp.and_then(|(v, d, _)| if v & 1 != 0 { Some(d) } else { None });
+                if Some(e.tid) == dump_id {
+                    tags.push("exc-thread=dump-thread".into());
+                }
+                if !th.iter().any(|t| t.0 == e.tid) {
+                    tags.push("exc-thread-absent".into());
+                }
+                if th.iter().filter(|t| t.0 == e.tid).count() > 1 {
+                    tags.push("exc-thread-duplicated".into());
+                }
+                if matches!(e.ctx, Ctx::U(_)) {
+                    tags.push("exc-ctx-unreadable".into());
+                }
+            }
+            tags.push(format!("pid:{}", if st.process_id.is_some() { "some" } else { "none" }));
+        } else {
+            tags.push(format!("result:{}", seen.out));
+        }
+        let nontrivial = seen.state.is_some() && n > 0 && (matches!(c.ex, ExcSpec::Some(_)) || c.bp.is_some());
+        ImplResult { out: seen.out, oracle, nontrivial, tags }
+    }
+
+    fn shrink(&self, case: &str, still_fails: &dyn Fn(&str) -> bool) -> String {
+        let Some(mut cur) = parse_case(case) else {
+            return case.to_string();
+        };
+        let mut progress = true;
+        let mut rounds = 0;
+        while progress && rounds < 50 {
+            progress = false;
+            rounds += 1;
+            let mut cands: Vec<Case> = vec![];
+            if let Some(th) = &cur.th {
+                for i in 0..th.len() {
+                    let mut c = cur.clone();
+                    c.th.as_mut().unwrap().remove(i);
+                    cands.push(c);
+                }
+            }
+            if let Some(nm) = &cur.nm {
+                for i in 0..nm.len() {
+                    let mut c = cur.clone();
+                    c.nm.as_mut().unwrap().remove(i);
+                    cands.push(c);
+                }
+                let mut c = cur.clone();
+                c.nm = None;
+                cands.push(c);
+            }
+            for i in 0..cur.mo.len() {
+                let mut c = cur.clone();
+                c.mo.remove(i);
+                cands.push(c);
+            }
+            for i in 0..cur.um.len() {
+                let mut c = cur.clone();
+                c.um.remove(i);
+                cands.push(c);
+            }
+            if cur.bp.is_some() {
+                let mut c = cur.clone();
+                c.bp = None;
+                cands.push(c);
+            }
+            if cur.mi != MiscSpec::None {
+                let mut c = cur.clone();
+                c.mi = MiscSpec::None;
+                cands.push(c);
+            }
+            if cur.st.is_some() {
+                let mut c = cur.clone();
+                c.st = None;
+                cands.push(c);
+            }
+            if cur.ex != ExcSpec::None {
+                let mut c = cur.clone();
+                c.ex = ExcSpec::None;
+                cands.push(c);
+            }
+            if let ExcSpec::Some(e) = &cur.ex {
+                for f in 0..5 {
+                    let mut e2 = e.clone();
+                    match f {
+                        0 => e2.p0 = 0,
+                        1 => e2.p2 = 0,
+                        2 => e2.flags = 0,
+                        3 => e2.addr = 0,
+                        _ => e2.np = 0,
+                    }
+                    if e2 != *e {
+                        let mut c = cur.clone();
+                        c.ex = ExcSpec::Some(e2);
+                        cands.push(c);
+                    }
+                }
+            }
+            if cur.ts != 0 {
+                let mut c = cur.clone();
+                c.ts = 0;
+                cands.push(c);
+            }
+            for c in cands {
+                if still_fails(&c.line()) {
+                    cur = c;
+                    progress = true;
+                    break;
+                }
+            }
+        }
+        cur.line()
     }
 }
